@@ -56,7 +56,9 @@ def numbers():
 
 TEXTS = ['', 'a', 'b', 'ab', 'abc', 'abd', 'B', 'Abc', 'ABC', 'z', 'é', 'apple', 'Apple', 'nan', 'NaN', 'inf',
          'Infinity', '-inf', '1e5', '1_0', ' 12', '１２', '12', '3', '120', '1.5', '1.7', '-1', '0', '00', '+5',
-         '0x10', 'TRUE', 'true', 'None', '#N/A', '12abc', '2020-01-01', ' ', 'a b', 'A']
+         '0x10', 'TRUE', 'true', 'None', '#N/A', '12abc', '2020-01-01', ' ', 'a b', 'A',
+         # outside a criterion ? * ~ are ordinary characters of a text
+         'Why?', 'why?', 'A*b', 'a*b', '~x', 'Ünï*', '*', 'a?']
 
 DATES = [D(2020, 1, 1), D(2020, 1, 2), DT(2020, 1, 1), DT(2020, 1, 1, 12), DT(2020, 1, 1, 0, 0, 1), DT(2020, 1, 2),
          DT(1999, 12, 31, 23, 59, 59), D(1999, 12, 31), D(2024, 2, 29), DT(2024, 2, 29), DT(2024, 3, 1), D(2100, 3, 1),
@@ -197,7 +199,7 @@ def lit(v):
             s += '0'
         return s if v >= 0 else f'(-{s})'
     if isinstance(v, str):
-        if any(ch in v for ch in '"?*~\\\'\n'):
+        if any(ch in v for ch in '"\\\'\n'):
             return None
         return f'"{v}"'
     return None
@@ -253,6 +255,11 @@ def eval_batch_cells(pairs, via):
             if b != BLANK:
                 cells[f'B{r}'] = b
             la, lb = f'A{r}', f'B{r}'
+        elif via == 'mixed':
+            # one operand is held by a cell, the other one is written into the formula
+            if a != BLANK:
+                cells[f'A{r}'] = a
+            la, lb = f'A{r}', lit(b)
         else:
             la, lb = lit(a), lit(b)
         for op in OPS:
@@ -319,7 +326,7 @@ NSHARD = 16
 def plan(tier):
     specs = [{'kind': 'grid', 'shard': i} for i in range(NSHARD)]
     specs += [{'kind': 'cells', 'shard': NSHARD + i, 'via': via, 'part': i % 4}
-              for i, via in enumerate(['cell'] * 4 + ['literal'] * 4)]
+              for i, via in enumerate(['cell'] * 4 + ['literal'] * 4 + ['mixed'] * 4)]
     if tier == 'thorough':
         specs += [{'kind': 'hyp', 'shard': 100 + i, 'examples': 40000} for i in range(16)]
     else:
@@ -345,7 +352,13 @@ def run_shard(spec, rec):
         import random
         via = spec['via']
         pairs = grid_pairs()
-        if via == 'literal':
+        if via == 'mixed':
+            def stored(v):
+                return not (isinstance(v, str) and v == '') and not (isinstance(v, dict) and '$d' in v) and \
+                    not (isinstance(v, float) and (v == int(v) or abs(v) < 1e-300 or float('%.16g' % v) != v)) and \
+                    not (isinstance(v, int) and not isinstance(v, bool) and abs(v) > 2 ** 53)
+            pairs = [(a, b) for a, b in pairs if lit(b) is not None and kind(b) != 'blank' and stored(a)]
+        elif via == 'literal':
             pairs = [(a, b) for a, b in pairs if lit(a) is not None and lit(b) is not None and kind(a) != 'blank' and kind(b) != 'blank']
         else:
             # a workbook stores a date as a date-time, integral floats as ints, '' as blank, numbers with 16 significant digits: keep what
@@ -357,6 +370,10 @@ def run_shard(spec, rec):
         rnd.shuffle(pairs)
         n = 600 if rec.tier == 'quick' else 6000
         mine = pairs[:n][spec['part']::4]
+        if via == 'mixed':
+            # every text against the literal that spells the same text (and its neighbours in case)
+            same = [(a, b) for a in TEXTS if a for b in TEXTS if b and a.lower() == b.lower() and lit(b) is not None]
+            mine = same[spec['part']::4] + mine
         if via == 'cell':
             # neighbours on purpose: one workbook (one instance of the class) compares 0, FALSE and a blank cell with the same
             # partner one after the other - whatever an instance remembers between two comparisons must not matter
